@@ -37,31 +37,4 @@ pub fn __tmap_entries<'a>(m: &'a IndexMap<u32, IndexMap<InpId, u32>>) -> (r: Vec
         forall|i: int, j: int| 0 <= i < j < r@.len() ==> *(#[trigger] r@[i]).0 != *(#[trigger] r@[j]).0,
 { unimplemented!() }
 
-/// DFA::iter_transitions / iter_inputs / iter_subwords (adapter chains) as the vector of what they yield
-impl DFA {
-    #[verifier::external_body]
-    fn iter_transitions(&self) -> (r: Vec<(StateId, InpId, StateId)>)
-        ensures
-            forall|k: int| 0 <= k < r@.len() ==> used(*self, (#[trigger] r@[k]).0, r@[k].1) && self.transitions@[r@[k].0][r@[k].1] == r@[k].2,
-            forall|q: u32, id: InpId| #[trigger] used(*self, q, id) ==> exists|k: int| 0 <= k < r@.len() && #[trigger] r@[k] == (q, id, self.transitions@[q][id]),
-    { unimplemented!() }
-
-    #[verifier::external_body]
-    fn iter_inputs(&self) -> (r: Vec<&Inp>)
-        requires dfa_wf(*self)
-        ensures
-            forall|k: int| 0 <= k < r@.len() ==> on_edge(*self, *(#[trigger] r@[k])),
-            forall|x: Inp| on_edge(*self, x) ==> exists|k: int| 0 <= k < r@.len() && *(#[trigger] r@[k]) == x,
-    { unimplemented!() }
-
-    #[verifier::external_body]
-    fn iter_subwords(&self) -> (r: Vec<&DFA>)
-        requires dfa_wf(*self), subs_wf(*self)
-        ensures
-            forall|k: int| 0 <= k < r@.len() ==> is_subword_of(*self, *(#[trigger] r@[k])),
-            forall|s: DFA| is_subword_of(*self, s) ==> exists|k: int| 0 <= k < r@.len() && *(#[trigger] r@[k]) == s,
-            r@.len() > 0 <==> exists|s: DFA| #[trigger] is_subword_of(*self, s),
-    { unimplemented!() }
-}
-
 } // verus!
